@@ -4,6 +4,7 @@ import (
 	"bytes"
 	"fmt"
 	"net/http"
+	"os"
 	"strings"
 	"testing"
 	"time"
@@ -464,11 +465,17 @@ func TestC01Transparency(t *testing.T) {
 	sub.Floor("5xx", 0.05)
 	sub.Floor("interim-103", 0.05)
 	sub.Floor("streaming", 0.04)
-	lab.Assume("L2: handler composition and server timeouts replicate cmd/helios/server.go (lab.BuildHandler, lab.NewSocketLab); HTTP/1.1 over loopback only; Expect: 100-continue, CONNECT, OPTIONS *, trailers and TLS backends are not generated")
+	if os.Getenv("VERIF_HELIOS") != "" {
+		sub.Floor("front=helios-binary", 0.05)
+	}
+	lab.Assume("L2: in nine labs of ten handler composition and server timeouts replicate cmd/helios/server.go (lab.BuildHandler, lab.NewSocketLab), in one of ten the front is the real helios binary started with the same configuration; HTTP/1.1 over loopback only; Expect: 100-continue, CONNECT, OPTIONS *, trailers and TLS backends are not generated")
 	lab.Check(t, sub, 6000, 120000, func(rt *rapid.T) {
 		lc := genLab(rt)
 		n := rapid.IntRange(1, 4).Draw(rt, "exchanges")
-		l, err := lab.NewSocketLab(lc.Strategy, lab.SocketOpts{Backends: lc.Backends, BasePaths: lc.BasePaths, Mutate: func(cfg *config.Config) {
+		// one lab in ten has the real helios binary as its front (cmd/helios's own handler composition
+		// and server construction) instead of the in-process replica of it
+		binary := os.Getenv("VERIF_HELIOS") != "" && rapid.IntRange(0, 9).Draw(rt, "binary_front") == 0
+		l, err := lab.NewSocketLab(lc.Strategy, lab.SocketOpts{Backends: lc.Backends, BasePaths: lc.BasePaths, Binary: binary, Mutate: func(cfg *config.Config) {
 			cfg.Logging.RequestID.Enabled, cfg.Logging.Trace.Enabled = lc.ReqID, lc.Trace
 			cfg.Logging.RequestID.Header, cfg.Logging.Trace.Header = lc.ReqIDHdr, lc.TraceHdr
 			if lc.LogPlugin {
@@ -511,7 +518,10 @@ func TestC01Transparency(t *testing.T) {
 				sub.Excluded("304-content-type-dropped")
 			}
 			labels := append([]string{lc.Strategy, "status-" + fmt.Sprint(ec.Resp.Status/100) + "xx", "resp-" + ec.Resp.Framing}, ec.labels...)
-			sub.Case(map[string]any{"lab": lc, "exchange": ec}, !trivial(ec), labels...)
+			if binary {
+				labels = append(labels, "front=helios-binary")
+			}
+			sub.Case(map[string]any{"lab": lc, "binary_front": binary, "exchange": ec}, !trivial(ec), labels...)
 			if viol != "" {
 				rt.Fatalf("lab %+v\nrequest %s %s headers %v framing %s body %d parts %v\nresponse status %d interim %v headers %v framing %s body %d parts %v stream %v\n=> %s",
 					lc, ec.Req.Method, shortStr(ec.Req.Target), short(ec.Req.Header), ec.Req.Framing, len(ec.Req.Body), ec.Req.Parts,
